@@ -113,6 +113,9 @@ def set_path(p, path, value):
         setattr(obj, path[-1], value)
 
 
+PACKED = []
+
+
 def run_history(h, ns, g=None, d=None, threaded=False):
     """threaded=True: every operation is carried out by the thread that owns the packet it is issued on (one worker thread per
     packet name, handed the operation by this thread, which waits for it): a schedule of threads at operation granularity"""
@@ -150,6 +153,7 @@ def run_history(h, ns, g=None, d=None, threaded=False):
                 obj.append(build(op[3], ns))
             elif op[0] == 'pack':
                 first = live[op[1]].pack()
+                PACKED.append(first.hex())
                 fields_before = json.dumps(canon(live[op[1]]), sort_keys=True)
                 second = live[op[1]].pack()
                 if first != second or json.dumps(canon(live[op[1]]), sort_keys=True) != fields_before:
@@ -168,7 +172,8 @@ def run_history(h, ns, g=None, d=None, threaded=False):
             report.append(dict(step=k, op=op, kind='exc', exc=type(e).__name__))
         MON[0] = False
         names = h_names
-        observations.append(dict(seq=[done] + ident_seq(live, names), canon=[canon(live[n]) if n in live else None for n in names]))
+        observations.append(dict(seq=[done] + ident_seq(live, names), canon=[canon(live[n]) if n in live else None for n in names],
+                                 packed=(PACKED.pop() if PACKED else None)))
         after = snapshot(live)
         if op[0] == 'share':
             # packets the user linked by putting one object in both may from now on change together
@@ -243,6 +248,7 @@ def run_history(h, ns, g=None, d=None, threaded=False):
 
 
 _WORLD = [0]
+PACKED = []
 
 
 def fresh_world(g, d):
@@ -337,6 +343,22 @@ if __name__ == '__main__':
             if a != b:
                 k = next(i for i in range(len(a)) if i >= len(b) or a[i] != b[i])
                 sched_bad.append(dict(history=hi, step=k, single_thread=a[k], one_thread_per_packet=b[k] if k < len(b) else None))
+        # pack() is observationally pure: the same history with a pack() of the packet just touched inserted after every operation
+        # shows the same packets after every original operation and the same bytes at every original pack()
+        ins_bad = []
+        for hi, h in enumerate(g['histories']):
+            h2, marks = [], []
+            for op in h:
+                h2.append(op); marks.append(len(h2) - 1)
+                if op[0] != 'pack':
+                    h2.append(['pack', op[1]])
+            del PACKED[:]
+            _, obs2 = run_history(h2, ns, None, None)
+            a = [[o['seq'][0], o['canon'], o.get('packed')] for o in observations[hi]]
+            b = [[obs2[m]['seq'][0], obs2[m]['canon'], obs2[m].get('packed')] for m in marks if m < len(obs2)]
+            if a != b:
+                k = next(i for i in range(len(a)) if i >= len(b) or a[i] != b[i])
+                ins_bad.append(dict(history=hi, step=k, plain=a[k], with_packs_inserted=b[k] if k < len(b) else None))
         th = run_threads(g['threads'], ns) if g.get('threads') else None
-        out['groups'].append(dict(defs=res['defs'], reports=reports, observations=observations, writes=sorted(set(map(tuple, WRITES))), threads=th, scheduled=dict(n=len(g['histories']), bad=sched_bad[:5])))
-    json.dump(out, open(sys.argv[2], 'w'))
+        out['groups'].append(dict(defs=res['defs'], reports=reports, observations=observations, writes=sorted(set(map(tuple, WRITES))), threads=th, scheduled=dict(n=len(g['histories']), bad=sched_bad[:5]), inserted=dict(n=len(g['histories']), bad=ins_bad[:5])))
+    json.dump(out, open(sys.argv[2], 'w'), default=lambda o: {'object': type(o).__name__})
